@@ -271,6 +271,7 @@ class ModelRun:
     sched_q: dict = field(default_factory=dict)       # (uid, evalno, k) -> queries tuple   (k = op index, -1 = pre)
     sampled: list = field(default_factory=list)       # (uid, t) runs that exist only through the sampled-start emulation
     stale: list = field(default_factory=list)
+    boundary_refs: list = field(default_factory=list)  # (uid of the selector, t): F22 emulation published an empty reference
     stale_armed: list = field(default_factory=list)   # (uid, t, slot): emulated graph slot left armed at a cancelled time         # (uid, t) runs that exist only through the stale-slot emulation
     terminated_by: object = None                      # (uid, phase, occ) when an uncaptured fault ended the run
     writes: dict = field(default_factory=dict)        # inst id -> [(t, val)]
@@ -316,7 +317,7 @@ def sampled_start_insts(flat):
 
 
 def simulate(flat: Flat, emulate_stale=False, emulate_sampled_start=False, preset=None, ref_invalid_notify=True,
-             captured=(), inv_notifies=True, sampled_inputs=None) -> ModelRun:
+             captured=(), inv_notifies=True, sampled_inputs=None, emulate_boundary_ref=False) -> ModelRun:
     """sampled_inputs (known finding F18 emulation): {source uid: original last-modified time} of boundary sources whose first
     script entry at the start time is a SAMPLE of a value they already held. Consumers in the started graph itself see it as a
     tick; consumers inside a nested graph below it are run too but read it as not modified, with its original time.
@@ -440,6 +441,9 @@ def simulate(flat: Flat, emulate_stale=False, emulate_sampled_start=False, prese
             kn = innermost_nested(i.path)
             if kn and any(r.target.id == pk and not r.passive and r.target.path[:kn] != i.path[:kn] for r in i.ins):
                 forced.setdefault(i.id, set()).add(start)
+            if i.op == "fb" and i.fb_source is not None and i.fb_source.target.id == pk and kn \
+                    and i.fb_source.target.path[:kn] != i.path[:kn]:
+                S[i.id].queue[start + 1] = preset[pk]      # the capturing side of a feedback is such a consumer too
 
     def wake_time(k):
         i, s = insts[k], S[k]
@@ -495,6 +499,15 @@ def simulate(flat: Flat, emulate_stale=False, emulate_sampled_start=False, prese
                     # a selected input that is itself a reference with nothing published yet leaves the output reference as is
                     if not (cand.op == "ite" and S[cand.id].pos == 0):
                         eff = s.st
+                    elif emulate_boundary_ref and s.pos != 0:
+                        # known finding F22 emulation: the unset reference reaches this selection through a nested-graph
+                        # boundary (its producer lives outside the graph of the selecting node): inside the child it reads
+                        # as a VALID, EMPTY reference, which is published - the readers are unbound for good
+                        kn = innermost_nested(i.path)
+                        if kn and cand.path[:kn] != i.path[:kn]:
+                            if s.pos != s.st:
+                                R.boundary_refs.append((i.ins[0].target.uid, t))
+                            eff = s.st
                 prev_final = s.base if s.pos else -1
                 # the wanted input is an unset reference: the published reference VALUE stays what it was (it is not re-resolved
                 # through the previously selected input, whose own retargets no longer reach this output)
@@ -690,6 +703,8 @@ def simulate(flat: Flat, emulate_stale=False, emulate_sampled_start=False, prese
         # feedback capture: producer ticked at t -> delivery at t+1
         for k, i in enumerate(insts):
             if i.op == "fb" and i.fb_source is not None and i.fb_source.target.id in ticked:
+                if sampled_kind(i, i.fb_source, t) == "via":
+                    continue        # F18 emulation: the capturing side is a reader like any other - not woken at the start
                 S[k].queue[t + 1] = S[i.fb_source.target.id].val
         later = [w for w in (wake_time(k) for k in range(len(insts))) if w is not None and w > t]
         R.next_after[t] = min(later) if later else INF
